@@ -31,13 +31,14 @@ var errCrashed = errors.New("verif: this process generation has crashed")
 
 // world is the persistent part: it survives handler restarts.
 type world struct {
-	x    *sched.X
-	src  *hs.Mem
-	dst  *hs.Mem
-	q    *hs.KV
-	inj  bool // fault injection enabled
-	nflt int
-	flog []string
+	x       *sched.X
+	src     *hs.Mem
+	dsts    []*hs.Mem // one destination (and queue) per sync handler on the source
+	qs      []*hs.KV
+	crashed bool
+	inj     bool // fault injection enabled
+	nflt    int
+	flog    []string
 }
 
 // gen is one process generation: proxies that die with it.
@@ -46,8 +47,8 @@ type gen struct {
 	n    int
 	dead bool
 	src  *storeProxy
-	dst  *storeProxy
-	q    *kvProxy
+	dsts []*storeProxy
+	qs   []*kvProxy
 }
 
 type storeProxy struct {
@@ -100,7 +101,7 @@ func (p *storeProxy) ReceiveBlob(ctx context.Context, br blob.Ref, src io.Reader
 		return blob.SizedRef{}, err
 	}
 	w := p.g.w
-	if p.role == "dst" && w.inj {
+	if strings.HasPrefix(p.role, "dst") && w.inj {
 		switch w.x.Choose("fault@dst.receive", 3) {
 		case 1:
 			w.fault("dst.receive:error")
@@ -147,6 +148,7 @@ func (w *world) fault(s string) {
 // kvProxy is the queue as seen by one generation.
 type kvProxy struct {
 	g *gen
+	i int // which handler's queue
 }
 
 var kvProxies = map[string]*kvProxy{}
@@ -166,7 +168,7 @@ func init() {
 }
 
 func (p *kvProxy) pre(op string) error {
-	vsync.Point(fmt.Sprintf("queue%d.%s", p.g.n, op))
+	vsync.Point(fmt.Sprintf("queue%d.%d.%s", p.i, p.g.n, op))
 	if p.g.dead {
 		return errCrashed
 	}
@@ -177,14 +179,18 @@ func (p *kvProxy) Get(key string) (string, error) {
 	if err := p.pre("get"); err != nil {
 		return "", err
 	}
-	return p.g.w.q.Get(key)
+	return p.g.w.qs[p.i].Get(key)
 }
 
 func (p *kvProxy) Set(key, value string) error {
 	if err := p.pre("set"); err != nil {
 		return err
 	}
-	return p.g.w.q.Set(key, value)
+	if w := p.g.w; w.inj && w.x.Choose("fault@queue.set", 2) == 1 {
+		w.fault("queue.set:error")
+		return hs.ErrInjected
+	}
+	return p.g.w.qs[p.i].Set(key, value)
 }
 
 func (p *kvProxy) Delete(key string) error {
@@ -194,15 +200,15 @@ func (p *kvProxy) Delete(key string) error {
 	w := p.g.w
 	// safety: a queue row may go away only after the destination holds the blob, bit-identical
 	if br, ok := blob.Parse(key); ok {
-		if _, err := w.q.Get(key); err == nil {
+		if _, err := w.qs[p.i].Get(key); err == nil {
 			want, _ := w.src.Get(br)
-			got, has := w.dst.Get(br)
+			got, has := w.dsts[p.i].Get(br)
 			if !has || !bytes.Equal(got, want) {
 				w.x.Fail("queue-row-deleted-before-destination-has-blob", fmt.Sprintf("queue row %s deleted while the destination %s (faults so far %v)", key, map[bool]string{true: "holds different bytes", false: "does not hold the blob"}[has], w.flog))
 			}
 		}
 	}
-	return w.q.Delete(key)
+	return w.qs[p.i].Delete(key)
 }
 
 func (p *kvProxy) BeginBatch() sorted.BatchMutation { return sorted.NewBatchMutation() }
@@ -210,14 +216,14 @@ func (p *kvProxy) CommitBatch(b sorted.BatchMutation) error {
 	if err := p.pre("commit"); err != nil {
 		return err
 	}
-	return p.g.w.q.CommitBatch(b)
+	return p.g.w.qs[p.i].CommitBatch(b)
 }
 func (p *kvProxy) Find(start, end string) sorted.Iterator {
-	vsync.Point(fmt.Sprintf("queue%d.find", p.g.n))
+	vsync.Point(fmt.Sprintf("queue%d.%d.find", p.i, p.g.n))
 	if p.g.dead {
 		return deadIter{}
 	}
-	return p.g.w.q.Find(start, end)
+	return p.g.w.qs[p.i].Find(start, end)
 }
 func (p *kvProxy) Close() error { return nil }
 
@@ -238,19 +244,26 @@ type loader struct {
 func (w *world) start(n int) (*gen, error) {
 	g := &gen{w: w, n: n}
 	g.src = &storeProxy{g, w.src, "src"}
-	g.dst = &storeProxy{g, w.dst, "dst"}
-	g.q = &kvProxy{g}
-	name := fmt.Sprintf("q%d", n)
-	kvProxies[name] = g.q
 	ld := hs.NewLoader()
 	ld.Set("/from/", g.src)
-	ld.Set("/to/", g.dst)
-	_, err := blobserver.CreateHandler("sync", ld, jsonconfig.Obj{
-		"from": "/from/", "to": "/to/",
-		"queue":           map[string]any{"type": "c19queue", "name": name},
-		"validateOnStart": false,
-	})
-	return g, err
+	for i := range w.dsts {
+		d := &storeProxy{g, w.dsts[i], fmt.Sprintf("dst%d.", i)}
+		q := &kvProxy{g, i}
+		g.dsts = append(g.dsts, d)
+		g.qs = append(g.qs, q)
+		name := fmt.Sprintf("q%d.%d", i, n)
+		kvProxies[name] = q
+		to := fmt.Sprintf("/to%d/", i)
+		ld.Set(to, d)
+		if _, err := blobserver.CreateHandler("sync", ld, jsonconfig.Obj{
+			"from": "/from/", "to": to,
+			"queue":           map[string]any{"type": "c19queue", "name": name},
+			"validateOnStart": false,
+		}); err != nil {
+			return g, err
+		}
+	}
+	return g, nil
 }
 
 var (
@@ -263,6 +276,7 @@ type program struct {
 	uploads [][]hs.Blob // per uploader goroutine
 	crash   bool
 	preload []hs.Blob // acknowledged and queued (but not yet copied) before the explored part: restart must deliver them
+	ndst    int       // number of sync handlers (destinations) on the source; default 1
 }
 
 var programs = []program{
@@ -272,17 +286,28 @@ var programs = []program{
 	{name: "upload-a||crash+restart", uploads: [][]hs.Blob{{bA}}, crash: true},
 	{name: "upload-a;b||crash+restart", uploads: [][]hs.Blob{{bA, bB}}, crash: true},
 	{name: "queued-a,restart||upload-b", uploads: [][]hs.Blob{{bB}}, preload: []hs.Blob{bA}},
+	{name: "two-destinations/upload-a", uploads: [][]hs.Blob{{bA}}, ndst: 2},
 }
 
 func scenario(p program, bound, cbound int) *sched.Config {
 	return &sched.Config{Name: p.name, Bound: bound, ChoiceBound: cbound, SigPrefix: "C19|" + p.name,
 		FakeHorizon: 60 * time.Second, MaxSteps: 3000,
 		Body: func(x *sched.X) {
-			w := &world{x: x, src: hs.NewMem("src"), dst: hs.NewMem("dst"), q: hs.NewKV("queue")}
+			nd := p.ndst
+			if nd == 0 {
+				nd = 1
+			}
+			w := &world{x: x, src: hs.NewMem("src")}
+			for i := 0; i < nd; i++ {
+				w.dsts = append(w.dsts, hs.NewMem(fmt.Sprintf("dst%d", i)))
+				w.qs = append(w.qs, hs.NewKV(fmt.Sprintf("queue%d", i)))
+			}
 			for _, b := range p.preload {
 				// a previous process acknowledged and queued it, then stopped before copying
 				w.src.Put(b)
-				w.q.Set(b.Ref.String(), fmt.Sprint(len(b.Data)))
+				for _, q := range w.qs {
+					q.Set(b.Ref.String(), fmt.Sprint(len(b.Data)))
+				}
 			}
 			acked := map[string]hs.Blob{}
 			for _, b := range p.preload {
@@ -305,7 +330,9 @@ func scenario(p program, bound, cbound int) *sched.Config {
 					<-started
 					for _, b := range list {
 						g := cur
-						if _, err := blobserver.Receive(ctx, g.src, b.Ref, bytes.NewReader(b.Data)); err == nil {
+						// an upload that was in flight when the process crashed was never
+						// acknowledged to anybody (the uploader dies with the process)
+						if _, err := blobserver.Receive(ctx, g.src, b.Ref, bytes.NewReader(b.Data)); err == nil && !g.dead {
 							acked[b.Name] = b
 						}
 					}
@@ -316,6 +343,7 @@ func scenario(p program, bound, cbound int) *sched.Config {
 					<-started
 					vsync.Point("crash")
 					cur.dead = true
+					w.crashed = true
 					x.S.Doom()
 					g, err := w.start(2)
 					if err != nil {
@@ -325,11 +353,30 @@ func scenario(p program, bound, cbound int) *sched.Config {
 					cur = g
 				})
 			}
+			// what must reach every destination: every acknowledged upload, and — when no
+			// crash happened — every blob the source store holds (the copy is owed to the
+			// blob being in the source, even if the upload call itself reported an error)
+			owed := func() map[string]hs.Blob {
+				o := map[string]hs.Blob{}
+				for k, b := range acked {
+					o[k] = b
+				}
+				if !w.crashed {
+					for _, b := range []hs.Blob{bA, bB} {
+						if _, ok := w.src.Get(b.Ref); ok {
+							o[b.Name] = b
+						}
+					}
+				}
+				return o
+			}
 			delivered := func() bool {
-				for _, b := range acked {
-					got, ok := w.dst.Get(b.Ref)
-					if !ok || !bytes.Equal(got, b.Data) {
-						return false
+				for _, b := range owed() {
+					for _, d := range w.dsts {
+						got, ok := d.Get(b.Ref)
+						if !ok || !bytes.Equal(got, b.Data) {
+							return false
+						}
 					}
 				}
 				return true
@@ -346,15 +393,18 @@ func scenario(p program, bound, cbound int) *sched.Config {
 			if !x.ClientsDone() {
 				return // step horizon inside an upload: no verdict
 			}
-			for _, b := range acked {
-				got, ok := w.dst.Get(b.Ref)
-				if ok && !bytes.Equal(got, b.Data) {
-					x.Fail("destination-holds-different-bytes", fmt.Sprintf("blob %s at the destination differs from the source (faults %v)", b.Name, w.flog))
-					return
-				}
-				if !ok {
-					x.Fail("not-delivered-within-horizon", fmt.Sprintf("blob %s was acknowledged by the source but is not at the destination after 60s of fake time (12 retry intervals); queue rows: %d; faults %v", b.Name, w.q.Len(), w.flog))
-					return
+			for _, b := range owed() {
+				for i, d := range w.dsts {
+					got, ok := d.Get(b.Ref)
+					if ok && !bytes.Equal(got, b.Data) {
+						x.Fail("destination-holds-different-bytes", fmt.Sprintf("blob %s at destination %d differs from the source (faults %v)", b.Name, i, w.flog))
+						return
+					}
+					if !ok {
+						_, wasAcked := acked[b.Name]
+						x.Fail("not-delivered-within-horizon", fmt.Sprintf("blob %s is in the source (upload acknowledged: %v) but not at destination %d after 60s of fake time (12 retry intervals); queue rows: %d; faults %v", b.Name, wasAcked, i, w.qs[i].Len(), w.flog))
+						return
+					}
 				}
 			}
 			// Rows may legitimately linger (a copy can finish and delete the row before the
